@@ -53,7 +53,7 @@ VALUES = [
      ['obj', 'B', [['a', ['int', 1]], ['s', ['strlike', 'S', 'hello']]], []],
      ['strlike', 'S', 'true']],
     [['dict', [[['str', 'k'], ['int', 1]]]], ['list', [['str', 'yes'], ['float', '1.5'], ['none']]],
-     ['float', '1e+16'], ['str', 'é']],
+     ['float', '1e+16'], ['str', 'é'], ['shared']],
 ]
 JSON_OPTS = [{}, {'indent': 2}, {'ensure_ascii': False}]
 
@@ -107,6 +107,15 @@ def probe(yaml):
 
 
 # ---------------------------------------------------------------------------
+def make_value(m, vs):
+    """Value spec -> value; ['shared'] is plain data with a list referenced
+    twice (YAML dumps it with an anchor, JSON refuses it half-way through)."""
+    if vs == ['shared']:
+        shared = [1, 'x']
+        return {'k': [shared, {'again': shared}]}
+    return m.realize(vs)
+
+
 def do_query(q):
     """Perform one call on freshly built classes/functions; canonical outcome."""
     import yaml
@@ -123,7 +132,7 @@ def do_query(q):
         _, mi, dk, vm, vi, oi = q
         m = models.Model(dict(MODELS[mi], doc_type='any'))
         mv = m if vm == mi else models.Model(dict(MODELS[vm], doc_type='any'))
-        value = mv.realize(VALUES[vm][vi])
+        value = make_value(mv, VALUES[vm][vi])
         fn = m.dumps if dk == 'yaml' else m.dumps_json
         kw = JSON_OPTS[oi] if dk == 'json' else {}
         return outcome(lambda: fn(value, **kw))
